@@ -57,6 +57,13 @@ func (k Keeper) BridgeCallHandler(ctx sdk.Context, msg *types.MsgBridgeCallClaim
 			},
 		)
 	}
+	// the tokens were credited to the receiver above; the refund record is funded from the refund address,
+	// so hand them over first (otherwise the receiver keeps them and the refund address pays out of its own pocket)
+	if refundAddr := msg.GetRefundAddr(); !bytes.Equal(receiverAddr.Bytes(), refundAddr.Bytes()) && !baseCoins.IsZero() {
+		if err = k.bankKeeper.SendCoins(ctx, receiverAddr.Bytes(), refundAddr.Bytes(), baseCoins); err != nil {
+			return err
+		}
+	}
 	return k.BridgeCallFailedRefund(ctx, msg.GetRefundAddr(), baseCoins, msg.EventNonce)
 }
 
